@@ -1,3 +1,117 @@
-From Coq Require Import Reals List.
+(* C07  Wavenumber solver inverts the dispersion relation; group velocity is consistent.
+   Only statements; every proof is [exact lemma].  Model: OSU.Model.Dispersion
+   (omega, guess, dstep, nstep, newton, kinv_batch, n_ratio, cg and the spec members).
+   All theorems are about the real-number model.  NOT proved (validated by execution on the
+   implementation, see harness/props/C07.py): that the Newton loop leaves through the tolerance
+   test within its 10 iterations, and monotonicity of the *returned* (tolerance-level) value. *)
+From Coq Require Import Reals List Lra.
+From Coquelicot Require Import Coquelicot.
 From OSU.Model Require Import Dispersion.
 From OSU.Proofs Require Import Dispersion.
+Import ListNotations.
+Open Scope R_scope.
+
+(* the dispersion relation is strictly increasing in k (finite depth d > 0 or deep water) ... *)
+Theorem omega_increasing : forall g, 0 < g -> forall k1 k2 d, 0 < k1 -> k1 < k2 -> depth_ok d ->
+  omega g k1 d < omega g k2 d.
+Proof. exact omega_increasing. Qed.
+
+(* ... so the wavenumber belonging to a frequency is unique *)
+Theorem kinv_unique : forall g, 0 < g -> forall k1 k2 d, 0 < k1 -> 0 < k2 -> depth_ok d ->
+  omega g k1 d = omega g k2 d -> k1 = k2.
+Proof. exact omega_injective. Qed.
+
+(* the exact root increases with w and decreases with depth (finite -> finite, finite -> deep) *)
+Theorem root_increasing_in_w : forall g, 0 < g -> forall k1 k2 d, 0 < k1 -> 0 < k2 -> depth_ok d ->
+  omega g k1 d < omega g k2 d -> k1 < k2.
+Proof. exact root_increasing_in_w. Qed.
+
+Theorem root_decreasing_in_depth : forall g, 0 < g -> forall k1 k2 d1 d2 w,
+  0 < k1 -> 0 < k2 -> 0 < d1 -> d1 < d2 ->
+  omega g k1 (Depth d1) = w -> omega g k2 (Depth d2) = w -> k2 < k1.
+Proof. exact root_decreasing_in_depth. Qed.
+
+Theorem root_decreasing_to_deep : forall g, 0 < g -> forall k1 k2 d1 w,
+  0 < k1 -> 0 < k2 -> 0 < d1 ->
+  omega g k1 (Depth d1) = w -> omega g k2 Deep = w -> k2 < k1.
+Proof. exact root_decreasing_to_deep. Qed.
+
+(* limits: the exact root lies between the deep-water value and its tanh correction, and above
+   the shallow-water value *)
+Theorem root_bounds : forall g k w d, 0 < g -> 0 < k -> 0 < d -> 0 < w -> omega g k (Depth d) = w ->
+  w * w / g < k /\ w / sqrt (g * d) <= k /\ k <= w * w / (g * tanh (w * w / g * d)).
+Proof. exact root_bounds. Qed.
+
+(* the first guess is positive and never above the root *)
+Theorem guess_positive : forall g, 0 < g -> forall w d, 0 < w -> depth_ok d -> 0 < guess g w d.
+Proof. exact guess_pos. Qed.
+
+Theorem guess_below_root : forall g, 0 < g -> forall w d, 0 < w -> depth_ok d ->
+  omega g (guess g w d) d <= w.
+Proof. exact guess_below_root. Qed.
+
+(* a Newton step from a positive under-estimate does not decrease the estimate (stays positive) *)
+Theorem newton_step_positive : forall g w k d, 0 < w -> 0 < k -> depth_ok d ->
+  omega g k d <= w -> k <= nstep g w d k /\ 0 < nstep g w d k.
+Proof. exact newton_step_positive. Qed.
+
+(* leaving the loop through the tolerance test: EVERY element of the batch meets the tolerance *)
+Theorem kinv_exit_tolerance : forall g tol fuel ps ks,
+  kinv_batch g tol fuel ps = (true, ks) ->
+  List.Forall2 (fun p k => Rabs (omega g k (snd p) - fst p) / fst p < tol) ps ks.
+Proof. exact kinv_exit_tolerance. Qed.
+
+Theorem kinv_scalar_tolerance : forall g w d ks, 0 < w -> kinv g w d = (true, ks) ->
+  exists k, ks = [k] /\ Rabs (omega g k d - w) < 1 / 1000 * w.
+Proof. exact kinv_scalar_tolerance. Qed.
+
+Theorem kinv_output_length : forall g tol fuel ps, length (snd (kinv_batch g tol fuel ps)) = length ps.
+Proof. exact kinv_length. Qed.
+
+(* deep water is exact: k = w^2/g after the first test, and every deep element of a mixed batch
+   stays at w^2/g however many iterations the other elements need *)
+Theorem deep_limit_scalar : forall g, 0 < g -> forall w, 0 < w -> kinv g w Deep = (true, [w * w / g]).
+Proof. exact kinv_deep_scalar. Qed.
+
+Theorem deep_limit_batch : forall g, 0 < g -> forall tol fuel ps, List.Forall (fun p => 0 < fst p) ps ->
+  List.Forall2 (fun p k => snd p = Deep -> k = fst p * fst p / g) ps (snd (kinv_batch g tol fuel ps)).
+Proof. exact kinv_deep_exact. Qed.
+
+(* group / phase velocity ratio *)
+Theorem ratio_range : forall k d, 0 < k -> depth_ok d -> 1 / 2 <= n_ratio k d <= 1.
+Proof. exact ratio_range. Qed.
+
+Theorem cg_over_phase_range : forall g k d, 0 < g -> 0 < k -> depth_ok d ->
+  1 / 2 <= cg g k d / phase g k d <= 1.
+Proof. exact cg_over_phase. Qed.
+
+(* group velocity is the derivative of the dispersion relation: exactly for kd <= 5 (and in deep
+   water), within 1e-3 relative for kd > 5 (the 0.5 shortcut) *)
+Theorem cg_is_derivative : forall g k d, 0 < g -> 0 < k -> depth_ok d ->
+  exists D, is_derive (fun k => omega g k d) k D /\ 0 < D /\
+            Rabs (cg g k d - D) <= 1 / 1000 * D /\
+            (match d with Deep => True | Depth dd => k * dd <= 5 end -> cg g k d = D).
+Proof. exact cg_is_derivative. Qed.
+
+Theorem shortcut_gap : forall x, 5 < x -> x / sinh (2 * x) < 5 / 10000.
+Proof. exact shortcut_gap. Qed.
+
+(* scale invariance: the solver on (w, d, g) is the dimensionless solver on w sqrt(d/g)
+   (same exit flag, wavenumbers scaled by the depth) for every batch of finite depths *)
+Theorem scale_invariance : forall g, 0 < g -> forall tol fuel ps, List.Forall finite_pt ps ->
+  kinv_batch 1 tol fuel (map (nd_pt g) ps)
+  = (fst (kinv_batch g tol fuel ps), nd_ks ps (snd (kinv_batch g tol fuel ps))).
+Proof. exact scale_invariance. Qed.
+
+(* spectrum members are the functions evaluated at 2 pi f and the per-point depth, missing = deep *)
+Theorem spectrum_depth_missing_is_deep : norm_depth None = Deep /\ forall d, norm_depth (Some d) = d.
+Proof. split; reflexivity. Qed.
+
+Theorem spectrum_wavenumber_is_solver : forall g fs ds,
+  spec_wavenumber g fs ds = kinv_batch g (1 / 1000) 10
+    (flat_map (fun d => map (fun f => (f * 2 * PI, norm_depth d)) fs) ds).
+Proof. reflexivity. Qed.
+
+(* non-vacuity *)
+Example depth_ok_examples : depth_ok Deep /\ depth_ok (Depth 10) /\ finite_pt (1, Depth 10).
+Proof. repeat split; simpl; try lra. exists 10. split; auto. lra. Qed.
